@@ -15,7 +15,7 @@ ALLOWED = {"propext", "Classical.choice", "Quot.sound"}
 FORBIDDEN = re.compile(r"\b(sorry|admit|native_decide|bv_decide|implemented_by|unsafe)\b|^\s*axiom\s|maxHeartbeats\s+0\b")
 
 def strip_comments(src):
-    # remove /- ... -/ (nesting-aware) and -- line comments
+    # remove /- ... -/ (nesting-aware) and -- line comments; empty every string literal
     res, depth, i = [], 0, 0
     while i < len(src):
         if src.startswith("/-", i):
@@ -23,6 +23,13 @@ def strip_comments(src):
         if src.startswith("-/", i) and depth > 0:
             depth -= 1; i += 2; continue
         if depth == 0:
+            if src.startswith("'\"'", i):   # the character literal '"'
+                res.append("' '"); i += 3; continue
+            if src[i] == '"':               # a string literal: its content is data, not code (Generated/*.lean quotes Go source)
+                j = i + 1
+                while j < len(src) and src[j] != '"':
+                    j += 2 if src[j] == "\\" else 1
+                res.append('""' + "\n" * src.count("\n", i, j)); i = j + 1; continue
             if src.startswith("--", i):
                 j = src.find("\n", i)
                 i = len(src) if j < 0 else j
@@ -102,7 +109,7 @@ else:
     if not status["props_built"]:
         # name the theorems in which the errors occur (nearest preceding `theorem` line)
         seen = set()
-        for m in re.finditer(r"Props/(" + prop + r"[A-Za-z]*)\.lean:(\d+):\d+", log):
+        for m in re.finditer(r"Props/(" + prop + r"[A-Za-z0-9]*)\.lean:(\d+):\d+", log):
             ln = int(m.group(2))
             try:
                 lines = open(os.path.join(lean, "Uniflow", "Props", m.group(1) + ".lean")).read().split("\n")
